@@ -115,7 +115,10 @@ func (db *SingleBucketBackend) ListBucket(bucket string, prefix *gofakes3.Prefix
 
 func (db *SingleBucketBackend) getBucketWithFilePrefixLocked(bucket string, prefixPath, prefixPart string) (*gofakes3.ObjectList, error) {
 	dirEntries, err := afero.ReadDir(db.fs, filepath.FromSlash(prefixPath))
-	if err != nil {
+	if os.IsNotExist(err) && prefixPath != "" {
+		// No directory for the prefix means no key matches it:
+		return gofakes3.NewObjectList(), nil
+	} else if err != nil {
 		return nil, err
 	}
 
